@@ -7,6 +7,15 @@ type Rand interface {
 	Intn(n int) int
 }
 
+// Exclusions of the minimal syntactic neighbourhood of listed known findings (set by the check while a finding is
+// listed in known-findings.d/C09.json; both false on a tree where the fixes are merged).
+var (
+	NoLogicalAssignToLocals bool // C09-stack-ref-rebase: ||= &&= ??= only on member targets
+	NoThrowingIteratorClose bool // C09-return-iterator-close-throws-state: mkIter return() modes 3/4 -> 1
+	SingleReturnPerInstance bool // C09-nested-return-completions: at most one return() per instance, none from drive()
+	NoDashChunk             bool // C09-property-key-minus: template chunk "-" (a possible property key "-" on a string) -> ":"
+)
+
 type local struct {
 	name string
 	role string // any, obj, arr, fn, ctr, exc, iter
@@ -52,9 +61,9 @@ func (g *gctx) pickW(w ...int) int {
 	return len(w) - 1
 }
 
-func (g *gctx) push()              { g.scopes = append(g.scopes, nil) }
-func (g *gctx) pop()               { g.scopes = g.scopes[:len(g.scopes)-1] }
-func (g *gctx) add(l local)        { g.scopes[len(g.scopes)-1] = append(g.scopes[len(g.scopes)-1], l) }
+func (g *gctx) push()       { g.scopes = append(g.scopes, nil) }
+func (g *gctx) pop()        { g.scopes = g.scopes[:len(g.scopes)-1] }
+func (g *gctx) add(l local) { g.scopes[len(g.scopes)-1] = append(g.scopes[len(g.scopes)-1], l) }
 func (g *gctx) fresh(p string) string {
 	g.nLocal++
 	return fmt.Sprintf("%s%d", p, g.nLocal)
@@ -190,6 +199,9 @@ func (g *gctx) mkIterCall() Expr {
 		re = g.pick(len(g.reops))
 	}
 	rm := []int{0, 1, 1, 2, 3, 4, 5}[g.pick(7)]
+	if NoThrowingIteratorClose && (rm == 3 || rm == 4) {
+		rm = 1
+	}
 	tm := []int{0, 0, 1, 1, 2, 3, 4}[g.pick(7)]
 	loose := 0.0
 	if g.chance(1, 4) {
@@ -314,6 +326,9 @@ func (g *gctx) exprD(pos string, depth int) Expr {
 		t := &Tmpl{}
 		n := 1 + g.pick(2)
 		chunks := []string{"", "-", ":"}
+		if NoDashChunk {
+			chunks[1] = ":"
+		}
 		for i := 0; i < n; i++ {
 			t.Strs = append(t.Strs, chunks[g.pick(3)])
 			t.Subs = append(t.Subs, g.exprD("tmpl", d))
@@ -340,6 +355,9 @@ func (g *gctx) exprD(pos string, depth int) Expr {
 		case 0:
 			if l, ok := g.pickAssignable(); ok {
 				op, p := g.assignOp()
+				if NoLogicalAssignToLocals && p == "logic-assign-rhs" {
+					op, p = "=", "assign-rhs"
+				}
 				return &Assign{Op: op, Target: id(l.name), V: g.exprD(p, d)}
 			}
 			fallthrough
@@ -554,8 +572,7 @@ func (g *gctx) pattern(kind string, depth int, out *[]local) Pattern {
 			pp.Computed = g.exprD("destr-key", 1)
 		}
 		pp.Target = g.pattern(kind, depth+1, out)
-		// goja's parser rejects `{k: [x = d] = dflt}` (array pattern with element defaults + property default): not generated
-		if _, isArr := pp.Target.(*PArr); !isArr && g.chance(1, 2) {
+		if g.chance(1, 2) {
 			pp.Default = g.exprD("destr-default", 1)
 		}
 		p.Props = append(p.Props, pp)
@@ -750,6 +767,10 @@ func (g *gctx) stmt() []Stmt {
 		r := &Return{}
 		if g.chance(3, 4) {
 			r.E = g.expr("return-arg")
+			if g.inGen && !g.isHelper && g.chance(1, 2) {
+				r.E = &AwRaw{Arg: g.leaf(), Site: g.sites}
+				g.sites++
+			}
 		}
 		if g.chance(2, 3) {
 			return []Stmt{&If{C: g.expr("if-cond"), Then: &Block{Body: []Stmt{r}}}}
@@ -908,6 +929,9 @@ func GenProgram(r Rand) *Program {
 	kinds := []string{"next", "next", "throw", "return"}
 	for i := g.pick(4); i > 0; i-- {
 		op := ReOp{Other: g.chance(1, 3), Kind: kinds[g.pick(4)], Val: g.pick(NumV), Rethrow: g.chance(1, 2), ViaGo: g.chance(1, 3)}
+		if SingleReturnPerInstance && op.Kind == "return" {
+			op.Kind = "next"
+		}
 		g.reops = append(g.reops, op)
 		if op.Other {
 			g.twoInst = true
@@ -925,6 +949,10 @@ func GenProgram(r Rand) *Program {
 	g.method = g.chance(1, 4)
 	g.useArgs = g.chance(1, 3)
 	p.Subject = g.function("gen", FGenerator, []string{"me", "a", "b"}, 3+g.pick(5), 30+g.pick(40))
+	if g.chance(1, 3) { // explicit final result (async: the function returns a promise / thenable / plain value)
+		p.Subject.Body = append(p.Subject.Body, &Return{E: &AwRaw{Arg: g.literal(), Site: g.sites}})
+		g.sites++
+	}
 	p.Subject.Method = g.method
 	p.Subject.Strict = g.chance(1, 4)
 	for i := 0; i < g.sites; i++ {
@@ -956,6 +984,7 @@ func (p *Program) UsesOther() bool {
 func GenHistory(r Rand, twoInst bool) []Op {
 	n := 1 + r.Intn(6)
 	var ops []Op
+	var returned [2]bool
 	for i := 0; i < n; i++ {
 		k := "next"
 		switch x := r.Intn(20); {
@@ -968,6 +997,12 @@ func GenHistory(r Rand, twoInst bool) []Op {
 		slot := 0
 		if twoInst && r.Intn(6) == 0 {
 			slot = 1
+		}
+		if SingleReturnPerInstance && k == "return" {
+			if returned[slot] {
+				k = "next"
+			}
+			returned[slot] = true
 		}
 		ops = append(ops, Op{Slot: slot, Kind: k, Val: r.Intn(NumV)})
 	}
